@@ -40,6 +40,15 @@ PAYLOADS = [
 ]
 LITERALS = ["12", "-3", "[1, 2]", "'VYTAINT'", "\"abc\"", "3.5", "(1, 2)", "[[1], 'x']", "0"]
 PRINTERS = [",", "…", "₴", "¨,", "¨…"]
+# every kind of valid Python literal that is not (directly) a Vyxal value, and the
+# lexical edge cases of literals; input parsing must read each as a value or keep it as
+# the string it is -- it has no try/except around it in execute_vyxal
+ODD_LITERALS = [
+    "None", "...", "Ellipsis", "True", "False", "b'x'", "b''", "{1, 2}", "{1: 2}", "{}", "set()", "frozenset()", "(1, 2)", "()", "(1,)",
+    "[1, None]", "[None]", "(None,)", "{None}", "[...]", "[Ellipsis]", "[True]", "[(1, 2), {3}]", "[1, [2, (3, {4: b'5'})]]", "{'a': [1]}", "[b'x', 'y']",
+    "1j", "1+2j", "[1j]", "9" * 60, "-" + "9" * 45, "1e400", "-1e400", "1e309", "[1e400]", "1e-400", "nan", "inf", "-inf", "[nan]", "0x10", "0b11", "0o7", "1_000", "-0", "+3", "- 3", "1.", ".5", "1e3",
+    "'it''s'", "'a\\'b'", "\"a\\nb\"", "'\\x00'", "'`'", "'\\\\'", "''", "\"\"", "' '", " ", "   ", "  12", "12  ", "\t5", "[]", "[[]]", "[ ]", "[1,", "(", "'unterminated", "[1, 2]]", "1 2", "None None",
+]
 
 WATCHED = {"compile", "exec", "builtins.input", "os.system", "subprocess.Popen", "open", "urllib.Request",
            "os.exec", "os.posix_spawn", "os.spawn", "os.fork"}
@@ -463,6 +472,27 @@ def fixed_cases():
         add(vy_string(p) + "E,", texts=[p], out1=p + "\n", raises=False)
         add("?,", inputs=[p], texts=[p], out1=p + "\n", raises=False)
         add("?E,", inputs=[p], texts=[p], out1=p + "\n", raises=False)
+    # valid Python literals that are not Vyxal values, as inputs: alone and mixed with
+    # ordinary inputs, read explicitly, implicitly and through E.  Nothing may escape.
+    for t in ODD_LITERALS:
+        big = False
+        try:
+            v = ast.literal_eval(t)
+            big = isinstance(v, int) and not isinstance(v, bool) and abs(v) > 64
+        except Exception:  # noqa: BLE001
+            pass
+        progs = ["?", "?,", ",", "?…_", "?:,"] + ([] if big else ["?E", "?E,", "E"])
+        for prog in progs:
+            add(prog, inputs=[t], texts=[t], odd=True)
+        add("?,?,?,", inputs=["7", t, "'abc'"], texts=[t], odd=True)
+        add("?,?,", inputs=[t, "[1, 2]"], texts=[t], odd=True)
+        add("1,", inputs=[t], texts=[t], out1="1\n", raises=False, odd=True)     # parsed even when never read
+        add("?,", inputs=[t], flags="a", texts=[t], odd=True)
+        add("?,", inputs=[t], flags="Ṡ", texts=[t], out1=(t + "\n") if t.strip() else None, raises=False, odd=True)
+        if "`" not in t and "\\" not in t and not big:
+            add(vy_string(t) + "E,", texts=[t], odd=True)
+    add("?,?,", inputs=["7", ""], texts=[], out1="7\n\n", raises=False, odd=True)      # an empty input line stays ''
+    add("?,?,", inputs=["", "7"], texts=[], odd=True)
     add("`12`E,", out1="12\n", raises=False)
     add("`[1, 2]`E,", out1="⟨ 1 | 2 ⟩\n", raises=False)
     add("?,", inputs=["[1, 2]"], out1="⟨ 1 | 2 ⟩\n", raises=False)
@@ -536,6 +566,71 @@ def random_cases(rng, n, diff=False):
     return out
 
 
+def called_names(text):
+    try:
+        tree = ast.parse(text)
+    except (SyntaxError, ValueError):
+        return set()
+    out = set()
+    for n in ast.walk(tree):
+        if isinstance(n, ast.Call):
+            if isinstance(n.func, ast.Name):
+                out.add(n.func.id)
+            elif isinstance(n.func, ast.Attribute):
+                out.add(n.func.attr)
+        elif isinstance(n, ast.Name):
+            out.add(n.id)
+    return out
+
+
+SWEEP_PAYLOAD = "print('VYTAINT')"
+
+
+def sweep_cases(env):
+    """For EVERY element of the table whose implementation can call a function it is handed
+    (derived from the sources: the element's template calls a function of the translator's
+    `calls_user_function` closure -- safe_apply, or a call of a parameter, transitively --
+    or calls a popped value itself) and every modifier: online programs that hand it a
+    lambda that prints, applies E to a tainted string, applies the call element to one."""
+    t = env.tables or {}
+    user = set((t.get("gen_sinks") or {}).get("calls_user_function", {}))
+    lambdas = [("print", "λ,;"), ("eval", "λ_" + vy_string(SWEEP_PAYLOAD) + "E;"), ("call", "λ_" + vy_string(SWEEP_PAYLOAD) + "†;")]
+    LIST = "⟨1|2|3⟩"
+    cases, keys = [], []
+    for e in t.get("elements", []):
+        names = called_names(e["text"])
+        # the template's own locals called as functions (e.g. `top(stack, ...)`) count too
+        direct = any(n in ("lhs", "rhs", "third", "top", "fn", "function") for n in names & {"lhs", "rhs", "third", "top"}) and "(" in e["text"]
+        if not (names & user) and not direct:
+            continue
+        k, ar = e["key"], e["arity"]
+        if k in ("Q",) or ar < 0:
+            continue
+        keys.append(k)
+        for lname, lam in lambdas:
+            if ar <= 1:
+                arrs = [lam + " ", lam + "w", LIST + lam]
+            elif ar == 2:
+                arrs = [LIST + lam, lam + LIST, "3 " + lam, lam + "3", LIST + lam + "w"]
+            else:
+                arrs = [LIST + lam + LIST, LIST + LIST + lam, lam + LIST + LIST, LIST + "2 " + lam, LIST + lam + "2", "1 " + lam + "3"]
+            for a in arrs:
+                for tail in ("", ","):
+                    cases.append({"prog": a + k + tail, "inputs": ["5", "[4, 6]"], "flags": "", "texts": [SWEEP_PAYLOAD],
+                                  "diff": lname == "print", "limit": True, "sweep": k})
+    mods = [m["key"] for m in t.get("modifiers", [])]
+    pc = t.get("parser", {})
+    for m in mods:
+        n_ops = 1 if m in pc.get("monadic_modifiers", []) else 2 if m in pc.get("dyadic_modifiers", []) else 3
+        for lname, lam, el in (("print", "λ,;", ","), ("eval", "λ_" + vy_string(SWEEP_PAYLOAD) + "E;", "E"), ("call", "λ_" + vy_string(SWEEP_PAYLOAD) + "†;", "†")):
+            tainted_list = "⟨" + vy_string(SWEEP_PAYLOAD) + "|" + vy_string(SWEEP_PAYLOAD) + "⟩"
+            for prog in (LIST + m + lam * n_ops, tainted_list + m + el * n_ops, tainted_list + LIST + m + el * n_ops, LIST + m + (lam + "†") * 1 + el * (n_ops - 1)):
+                for tail in ("", ","):
+                    cases.append({"prog": prog + tail, "inputs": ["5", "[4, 6]"], "flags": "", "texts": [SWEEP_PAYLOAD],
+                                  "diff": lname == "print", "limit": True, "sweep": "modifier " + m})
+    return cases, keys, mods
+
+
 def oracle(env):
     V.import_repo()
     import vyxal.main  # noqa: F401  (imported before forking)
@@ -544,7 +639,8 @@ def oracle(env):
     dif = random_cases(env.rng, env.budget(700, 4000), diff=True)
     for c in fixed[:40]:
         c["diff"] = "c" not in c["flags"] and "h" not in c["flags"]
-    cases = fixed + rnd + dif
+    swp, swept_keys, swept_mods = sweep_cases(env)
+    cases = fixed + rnd + dif + swp
     res = V.pmap(oracle_case, cases, timeout=4 * RUN_SECONDS, procs=min(V.NPROC, 8))
     stats = {"ok": 0, "timeout": 0, "exc": 0, "raised_recorded": 0, "finished": 0, "host_input_reads": 0,
              "diff_compared": 0}
@@ -587,7 +683,10 @@ def oracle(env):
         if c.get("texts") or c["inputs"] or any(p in c["prog"] for p in PRINTERS) or r["err"]:
             keys.append("run:" + c["prog"] + "|" + "\n".join(c["inputs"]) + "|" + c["flags"])
     env.count(len(cases), keys)
-    env.note("oracle_runs", {"fixed": len(fixed), "random_tainted": len(rnd), "random_differential": len(dif), **stats})
+    env.note("user_function_sweep", {"elements_that_can_call_a_user_function": len(swept_keys), "keys": "".join(k + " " for k in swept_keys),
+                                     "modifiers": "".join(swept_mods), "programs": len(swp),
+                                     "lambdas": ["λ,;", "λ_`" + SWEEP_PAYLOAD + "`E;", "λ_`" + SWEEP_PAYLOAD + "`†;"]})
+    env.note("oracle_runs", {"fixed": len(fixed), "user_function_sweep": len(swp), "random_tainted": len(rnd), "random_differential": len(dif), **stats})
     env.note("audit_event_counts", nev)
     env.note("sympy_text_evaluation_reached_NOT_judged", sympy_notes)
     env.sample({"oracle_case": cases[len(fixed) + 3]})
@@ -627,7 +726,7 @@ PRE = ("From Coq Require Import List NArith Bool.\nFrom Vy Require Import Model.
        " | LiteralEval, LiteralEval | VyExec, VyExec | HostInput, HostInput | Exit, Exit | ErrRecord, ErrRecord | Raise, Raise => true\n"
        " | _, _ => false end.\n"
        "Fixpoint effs_eqb (a b : list effect) : bool := match a, b with [] , [] => true | x :: a', y :: b' => eff_eqb x y && effs_eqb a' b' | _, _ => false end.\n"
-       "Definition res_eqb (a b : eval_result) : bool := match a, b with RValue, RValue | RUnchanged, RUnchanged => true | _, _ => false end.\n"
+       "Definition res_eqb (a b : eval_result) : bool := match a, b with RValue, RValue | RUnchanged, RUnchanged | RRaises, RRaises => true | _, _ => false end.\n"
        "Definition md (b : bool) : mode := {| online := b |}.\n"
        "Definition tf (a b : bool) : text_facts := {| is_literal := a; is_evaluable := b |}.\n")
 
@@ -665,28 +764,44 @@ def observed_trace(rec, texts):
     return out
 
 
-def text_facts(text):
-    """independent of vy_eval: (is a literal of the supported kinds, eval succeeds) — only
-    ever called on the harness's own benign texts"""
-    def supported(v):
-        if isinstance(v, bool):
-            return False
-        if isinstance(v, (int, float, str)):
-            return True
-        if isinstance(v, (list, tuple)):
-            return all(supported(x) for x in v)
+def converts(v, top=True):
+    """Does the Python value become a Vyxal value without an error AT CONVERSION TIME?
+    (independent of vy_eval: what vyxalify / the float step can take.)  None and Ellipsis
+    are not iterable; a top-level float goes through Rational(str(t)), which rejects
+    inf / nan; lists convert their items eagerly; every other iterable (tuple, set, dict,
+    bytes) becomes a lazy list whose items are converted only when pulled."""
+    import math
+    if v is None or v is Ellipsis:
         return False
+    if isinstance(v, (bool, int, str, complex)):
+        return True
+    if isinstance(v, float):
+        return math.isfinite(v) if top else True
+    if isinstance(v, list):
+        return all(converts(x, False) for x in v)
     try:
-        lit = supported(ast.literal_eval(text))
-        lit_known = True
+        iter(v)
+        return True
+    except TypeError:
+        return False
+
+
+SAFE_BUILTINS = {"len": len, "max": max, "abs": abs, "min": min, "sum": sum, "set": set, "frozenset": frozenset,
+                 "Ellipsis": Ellipsis}
+
+
+def text_facts(text):
+    """independent of vy_eval: (a Python literal that converts, eval succeeds and the result
+    converts).  eval is only ever called here on the harness's own benign texts."""
+    try:
+        lit = converts(ast.literal_eval(text))
     except Exception:  # noqa: BLE001
-        lit, lit_known = False, True
+        lit = False
     try:
-        v = eval(text, {"__builtins__": {"len": len, "max": max, "abs": abs, "min": min, "sum": sum}}, {})  # benign pool only
-        ev = supported(v)
+        ev = converts(eval(text, {"__builtins__": SAFE_BUILTINS}, {}))  # benign pool only
     except Exception:  # noqa: BLE001
         ev = False
-    return lit, ev, lit_known
+    return lit, ev, True
 
 
 def benign_texts(rng, n):
@@ -736,16 +851,26 @@ def _corr_eval_case(item):
     ensure_hook()
     ctx = Context()
     ctx.online = online
+    fresh = "".join(list(text))          # a new object: "unchanged" is decided by identity
     _ST["events"] = []
+    _ST["texts"] = ()
     _ST["armed"] = True
+    err = None
+    res = None
     try:
         with contextlib.redirect_stdout(io.StringIO()):
-            res = helpers.vy_eval(text, ctx)
+            res = helpers.vy_eval(fresh, ctx)
+    except HardTimeout:
+        raise
+    except BaseException as e:  # noqa: BLE001
+        err = type(e).__name__ + ": " + str(e)[:80]
     finally:
         _ST["armed"] = False
     rec = {"events": _ST["events"], "err": None}
-    unchanged = isinstance(res, str) and res == text
-    return observed_trace(rec, [text]), "RUnchanged" if unchanged else "RValue"
+    if err is not None:
+        return observed_trace(rec, [text]), "RRaises", err
+    unchanged = isinstance(res, str) and (res is fresh if len(text) > 1 else res == text)
+    return observed_trace(rec, [text]), "RUnchanged" if unchanged else "RValue", ""
 
 
 def build_pval(tree, rng_vals):
@@ -957,7 +1082,7 @@ def correspondence(env):
     procs = min(V.NPROC, 8)
     skipped = {}
     # 1. vy_eval
-    texts = benign_texts(rng, env.budget(500, 2500)) + LITERALS[:6] + ["1+1", "max(1, 2)", "abc", "1 +"]
+    texts = benign_texts(rng, env.budget(500, 2500)) + LITERALS[:6] + ["1+1", "max(1, 2)", "abc", "1 +"] + ODD_LITERALS + [""]
     items = [(t, o) for t in texts for o in (True, False)]
     res = V.pmap(corr_eval_case, items, timeout=4 * CORR_SECONDS, procs=procs)
     cases, meta = [], []
@@ -969,9 +1094,9 @@ def correspondence(env):
             env.proof_broken("vy_eval correspondence case did not run", f"{t!r} online={o}: {st} {r}")
             continue
         lit, ev, _ = text_facts(t)
-        tr, kind = r
+        tr, kind, err = r
         cases.append(f"(({cb(o)}, tf {cb(lit)} {cb(ev)}), ({ceffs(tr)}, {kind}))")
-        meta.append({"text": t, "online": o, "literal": lit, "evaluable": ev, "impl_trace": tr, "impl_result": kind})
+        meta.append({"text": t, "online": o, "literal": lit, "evaluable": ev, "impl_trace": tr, "impl_result": kind, "impl_error": err})
     chk = ("fun c => match c with ((o, t), (tr, k)) => effs_eqb (vy_eval_trace (md o) t) tr && res_eqb (vy_eval_result (md o) t) k end")
     ok, bad, logs = env.coq_mismatches("eval", PRE, lambda lo, hi: "[" + ";\n ".join(cases[lo:hi]) + "]", chk, len(cases))
     if not ok:
@@ -979,12 +1104,17 @@ def correspondence(env):
     for i in bad:
         env.disagree("vy_eval", {k: meta[i][k] for k in ("text", "online", "literal", "evaluable")},
                      "trace/result of Model.Online.vy_eval_*", {"trace": meta[i]["impl_trace"], "result": meta[i]["impl_result"]})
-        if meta[i]["online"] and ("PyEval" in meta[i]["impl_trace"] or (meta[i]["impl_result"] == "RValue" and not meta[i]["literal"])):
+        if meta[i]["impl_result"] == "RRaises":
+            env.fail({"function": "vy_eval", "text": meta[i]["text"], "online": meta[i]["online"]},
+                     f"vy_eval raises {meta[i]['impl_error']} instead of returning a value or the text unchanged (input parsing in execute_vyxal has no try around it)",
+                     cls="C19:input-parse-raises")
+        elif meta[i]["online"] and ("PyEval" in meta[i]["impl_trace"] or (meta[i]["impl_result"] == "RValue" and not meta[i]["literal"])):
             env.fail({"function": "vy_eval", "text": meta[i]["text"], "online": True},
                      f"vy_eval does not treat the text as a literal-or-string online: trace {meta[i]['impl_trace']}, result {meta[i]['impl_result']}", cls="C19:compile-user-text")
     env.count(len(cases), (f"eval:{m['text']}:{m['online']}" for m in meta))
     dist = {"literal": sum(m["literal"] for m in meta), "evaluable_nonliteral": sum(m["evaluable"] and not m["literal"] for m in meta),
-            "neither": sum(not m["evaluable"] and not m["literal"] for m in meta), "total": len(meta)}
+            "neither": sum(not m["evaluable"] and not m["literal"] for m in meta), "total": len(meta),
+            "python_literals_that_are_not_vyxal_values_or_edge_cases": len(ODD_LITERALS) + 1}
     env.note("vy_eval_case_distribution", dist)
     if meta:
         env.sample({"vy_eval_case": meta[len(meta) // 3]})
